@@ -208,14 +208,17 @@ func verifHarness_C03_partialGrowth() {
 	vReach()
 }
 
-func vConsScenario(mode int) vConsCfg {
+func vConsScenario(mode int) vConsCfg { return vConsScenarioSized(mode, vTier() > 0) }
+
+// vConsScenarioSized: big selects the thorough tier's sizes.
+func vConsScenarioSized(mode int, big bool) vConsCfg {
 	c := vConsCfg{nBatches: 2, recsPerBatch: 2, faultMenu: vcKinds, closeAfter: -1}
 	if mode == 0 {
 		c.faults, c.delay = 2, 0
 	} else {
 		c.faults, c.delay = 1, 1
 	}
-	if vTier() > 0 {
+	if big {
 		if mode == 0 {
 			c.nBatches = 3
 			c.faults = 3
@@ -227,7 +230,7 @@ func vConsScenario(mode int) vConsCfg {
 	c.chanBuf = vChoose("chanBuf", 2)
 	c.perFetch = 1 + vChoose("perFetch", 2)
 	c.slowReader = vChoose("slowReader", 2) == 1
-	if vTier() > 0 && mode == 1 {
+	if big && mode == 1 {
 		// two scheduling delays are affordable only on a reduced configuration set
 		vAssume(c.start == 1 && c.perFetch == 1 && c.chanBuf == 0)
 	}
